@@ -9,9 +9,9 @@ python3 lib/overlay.py >/dev/null || exit 1
 python3 bin/regen.py || echo "WARN: regeneration reported problems (the affected checks will report them)"
 # Lean: build every property module and the drivers (a failure here is reported again by the property's own check)
 ( cd lean && lake build 2>&1 | tail -5 )
-( cd lean && lake build drv $(python3 - <<'PY'
+( cd lean && lake build $(python3 - <<'PY'
 import re
-print(" ".join(re.findall(r'name = "(gen_[a-z0-9_]+)"', open('/verif/lean/lakefile.toml').read())))
+print(" ".join(re.findall(r'name = "([a-z0-9_]+)"', open('/verif/lean/lakefile.toml').read())))
 PY
 ) 2>&1 | tail -3 )
 # warm the Go build cache for the harnessed packages
